@@ -56,6 +56,24 @@ HARMLESS_METHODS = {
     'discard', 'copy', '__iter__', '__class__', 'serialize',
     'serialize_body', 'setdefault', 'format', 'split', 'search', 'match',
     'debug', 'trace', 'insert', 'count',
+    # str / bytes / set / list / deque methods that cannot raise for
+    # arguments of the receiver's own kind
+    'isdigit', 'isalpha', 'isalnum', 'isspace', 'islower', 'isupper',
+    'isdecimal', 'isnumeric', 'istitle', 'isascii', 'title', 'capitalize',
+    'casefold', 'swapcase', 'lstrip', 'rstrip', 'replace', 'partition',
+    'rpartition', 'rsplit', 'splitlines', 'find', 'rfind', 'zfill', 'ljust',
+    'rjust', 'center', 'hex', 'union', 'intersection', 'difference',
+    'symmetric_difference', 'issubset', 'issuperset', 'isdisjoint', 'sort',
+    'reverse', 'appendleft', 'extendleft', 'rotate', 'bit_length',
+    'tobytes', 'info', 'warning', 'error',
+}
+# standard-library functions that take no input of ours and cannot fail
+# (clocks and the like are the business of the purity rule, C28)
+EXT_HARMLESS = {
+    'time.monotonic', 'time.time', 'time.perf_counter', 'time.monotonic_ns',
+    'time.time_ns', 'os.getpid', 'itertools.count', 'itertools.chain',
+    'collections.OrderedDict', 'collections.defaultdict', 'copy.copy',
+    'functools.partial', 'itertools.islice', 'operator.itemgetter',
 }
 BUILTIN_RAISES = {
     'int': None,    # special-cased: int(x, base) of text -> ValueError
@@ -147,7 +165,7 @@ class Raises:
         for fi in funcs:
             self.escapes[fi.qual] = {}
             self.body_escapes[fi.qual] = {}
-        for rnd in range(12):
+        for rnd in range(40):
             changed = False
             self.partial_ops = []
             self.ext_calls = []
@@ -157,8 +175,7 @@ class Raises:
                 tgt = self.body_escapes if fi.is_generator else self.escapes
                 old = tgt[fi.qual]
                 for k, w in out.items():
-                    if k not in old:
-                        old[k] = w
+                    if _merge(old, k, w):
                         changed = True
             if not changed:
                 break
@@ -179,19 +196,21 @@ class Raises:
             for h, names in fr['handlers']:
                 if names is None or any(self.m.exc_is_subclass(exc, n)
                                         for n in names):
-                    fr['arrivals'].setdefault(id(h), {}).setdefault(
-                        exc, witness)
+                    _merge(fr['arrivals'].setdefault(id(h), {}), exc,
+                           witness)
                     return ('handler', h)
-        out.setdefault(exc, witness)
+        _merge(out, exc, witness)
         return ('escape', None)
 
     def _w(self, fi, node, what, inner=None):
         loc = '%s:%s' % (getattr(node, '_file', '?'),
                          getattr(node, 'lineno', '?'))
-        w = ((fi.qual, loc, what),)
+        step = (fi.qual, loc, what)
         if inner:
-            w = w + tuple(inner)
-        return w[:8]
+            origins = {o: _cap((step,) + tuple(pth))
+                       for o, pth in inner.origins.items()}
+            return W(_cap((step,) + tuple(inner)), origins)
+        return W((step,))
 
     def _block(self, fi, stmts, frames, out, reraise):
         for st in stmts:
@@ -240,7 +259,7 @@ class Raises:
                 arr = frame['arrivals'].get(id(h), {})
                 prev = self.handler_arrivals.setdefault(id(h), {})
                 for k, w in arr.items():
-                    prev.setdefault(k, w)
+                    _merge(prev, k, w)
                 self._block(fi, h.body, frames, out, prev)
             self._block(fi, st.finalbody, frames, out, reraise)
             return
@@ -590,9 +609,13 @@ class Raises:
         if name.endswith('.__init__') and \
                 name[:-9] in extlib.frames():
             excs = self._frame_ctor(fi, call, name[:-9])
+        if excs == 'MISSING' and name == 'Frame.__init__':
+            # a frame built through its base class (x.__class__(...)): any
+            # concrete frame's stream-association check may refuse it
+            excs = {'InvalidDataError'}
         if excs == 'MISSING':
             base = name.split('.')[-1]
-            if base in HARMLESS_METHODS:
+            if base in HARMLESS_METHODS or name in EXT_HARMLESS:
                 return
             self.unsummarised.append((fi.qual, name))
             return
@@ -646,6 +669,38 @@ class Raises:
     # ------------------------------------------------------------------
     def of(self, qual):
         return self.escapes.get(qual, {})
+
+
+class W(tuple):
+    """A witness path (outermost call first, origin last) plus, for every
+    distinct origin of the exception, one path that ends there."""
+
+    def __new__(cls, steps, origins=None):
+        o = super().__new__(cls, steps)
+        o.origins = origins if origins is not None else \
+            {steps[-1]: tuple(steps)}
+        return o
+
+
+def _cap(t):
+    if len(t) > 9:
+        return t[:7] + (('...', '', '%d calls omitted' % (len(t) - 8)),) + \
+            t[-1:]
+    return t
+
+
+def _merge(d, exc, w):
+    """Record witness w for exc in d; True when something new was learnt."""
+    cur = d.get(exc)
+    if cur is None:
+        d[exc] = W(tuple(w), dict(w.origins))
+        return True
+    grew = False
+    for o, pth in w.origins.items():
+        if o not in cur.origins:
+            cur.origins[o] = pth
+            grew = True
+    return grew
 
 
 class _Ctx:
